@@ -143,6 +143,13 @@ func Pool() []Block {
 		{Name: "H_rootp", Kind: "http", Defines: []string{"path:/{tenant}", "tagentry:@_7Btenant_7D"}, Nodes: one(func() *Node {
 			return N("URL", "/{tenant}/users").WithParen().WithKids(N("GET").WithKids(N("200", "any")))
 		})},
+		// the shortest path there is: a parameter of exactly one byte, as a method's path and as a URL's
+		{Name: "H_slash", Kind: "http", Defines: []string{"path:/", "tagentry:@_"}, Nodes: func() []*Node {
+			return []*Node{
+				N("GET", "/").WithKids(N("200", "any")),
+				N("URL", "/").WithParen().WithKids(N("POST").WithKids(N("200", "any"))),
+			}
+		}},
 		{Name: "T_pk2", Kind: "type", Defines: []string{"@pk2"}, Nodes: one(func() *Node {
 			return N("TYPE", "@pk2").WithBody("{\n  \"kid\": 1\n}")
 		})},
